@@ -14,6 +14,7 @@ from .stubs import StubRule, StubFile, make_rule_list
 TARGET = "design.vhd"
 ORIG = ("orig",)
 BODY = "fixed-body"
+READ_LINE = "x"
 
 
 class Crash(BaseException):
@@ -101,6 +102,16 @@ class ModelFS:
             self.mutations.append((what, path))
             self.files[path] = [(), self.DEFAULT_MODE]
             r = Handle(self, path)
+        elif what == "os_open":
+            if k:
+                self._raise(k, what)
+            self.mutations.append((what, path))
+            created = arg
+            if self.eng.bool("umask_masks_a_requested_bit"):
+                created = self.eng.int("created_mode", 0, 0o777)
+                self.eng.assume(Not(f_of(created == arg)))
+            self.files[path] = [(), created]
+            r = 3
         elif what == "write":
             if k:
                 # a failing write may have put part of the data on disk
@@ -160,9 +171,20 @@ class ModelFS:
 
 class OsStub:
     sep = "/"
+    O_WRONLY, O_CREAT, O_TRUNC, O_CLOEXEC, O_EXCL = 1, 64, 512, 524288, 128
 
     def __init__(self, fs):
         self.fs = fs
+
+    def __getattr__(self, name):
+        raise core.Unsupported("os.%s is not part of the model file system" % name)
+
+    def open(self, p, flags, mode=0o777):
+        # open(2): the requested mode is filtered by the process umask (an arbitrary environment value)
+        return self.fs.op("os_open", p, mode)
+
+    def close(self, fd):
+        return None
 
     def stat(self, p):
         return self.fs.op("stat", p)
@@ -186,15 +208,30 @@ class ShutilStub:
 
 
 class FileModel(StubFile):
-    def __init__(self):
+    """text of the in-memory model: the lines read, until a rule fix (update) or the silent phase-1 normalisation
+    (fix_trailing_whitespace / fix_blank_lines, symbolic: did it change anything?) alters it"""
+
+    def __init__(self, eng):
         super().__init__()
         self.filename = TARGET
+        self.eng = eng
+        self.body = READ_LINE
 
     def set_indent_map(self, d):
         pass
 
+    def update(self, lUpdates, bUpdateMap):
+        super().update(lUpdates, bUpdateMap)
+        if len(lUpdates) > 0:
+            self.body = BODY
+
+    def fix_trailing_whitespace(self):
+        super().fix_trailing_whitespace()
+        if self.eng.bool("normalisation_changes_text") and self.body == READ_LINE:
+            self.body = READ_LINE + "-normalised"
+
     def get_lines(self):
-        return ["", BODY]
+        return ["", self.body]
 
 
 class RaisingRule(StubRule):
@@ -258,14 +295,14 @@ class K16(Harness):
         cla.fix = fix
         cla.backup = backup
         cfg = Cfg()
-        oFile = FileModel()
+        oFile = FileModel(eng)
         rule = RaisingRule(eng, 0, phases=(1, 1), subphases=(1, 1), max_viol=1, lines=(1, 1))
 
         class VF:
             class utils:
                 @staticmethod
                 def read_vhdlfile(name):
-                    return ["x"], None
+                    return [READ_LINE], None
 
             @staticmethod
             def vhdlFile(*a, **k):
@@ -289,7 +326,15 @@ class K16(Harness):
 
         saved = (AR.vhdlFile, AR.rule_list, AR.os, AR.shutil, AR.__dict__.get("open"))
         AR.vhdlFile, AR.rule_list, AR.os, AR.shutil = VF, RL, OsStub(fs), ShutilStub(fs)
-        AR.open = lambda path, mode="r", **k: fs.op("open_w", path) if "w" in mode else (_ for _ in ()).throw(AssertionError("unexpected read"))
+        def model_open(path, mode="r", **k):
+            if "w" not in mode:
+                raise AssertionError("unexpected read of %r" % (path,))
+            if k.get("opener") is not None:
+                k["opener"](path, OsStub.O_WRONLY | OsStub.O_CREAT | OsStub.O_TRUNC)
+                return Handle(fs, path)
+            return fs.op("open_w", path)
+
+        AR.open = model_open
         outcome = "returned"
         result = None
         try:
@@ -313,7 +358,7 @@ class K16(Harness):
         tgt = files.get(TARGET)
         clauses.append(("C16:target_exists", tgt is not None))
         if tgt is not None:
-            clauses.append(("C16:content_all_or_nothing", tgt[0] == ORIG or tgt[0] == FIXED_COMPLETE))
+            clauses.append(("C16:content_all_or_nothing", tgt[0] == ORIG or tgt[0] == (oFile.body, "\n")))
             clauses.append(("C16:mode_kept", Eq(tgt[1], orig_mode)))
         tmp_left = [k for k in files if k.endswith(".tmp")]
         if outcome != "crashed":
@@ -325,7 +370,7 @@ class K16(Harness):
         if outcome == "returned":
             # a completed run with --fix --backup has a backup; a run that fixed something wrote the complete fixed text
             # (unless the write-back itself hit the injected fault, in which case the original must still be there)
-            wrote = tgt is not None and tgt[0] == FIXED_COMPLETE
+            wrote = tgt is not None and tgt[0] == (oFile.body, "\n")
             clauses.append(("C16:backup_made", Implies(And(fix, backup, Not(parse_error), Not(config_error)), bak is not None)))
             clauses.append(("C16:fixed_written_unless_fault", Implies(And(did_fix, fs.faulted is None), wrote)))
             # exit contribution / status on rejected input
